@@ -1,278 +1,486 @@
 """C04: generator of Python programs for the determinism search.
 
-No imports except `typing` (typeshed is absent).  Every program mixes the ingredients whose analysis goes
-through sets/dicts keyed by names or by id() inside pytype: many module-level names with random spellings
-(so their string hashes differ between hash seeds), classes with attributes assigned in several methods,
-multiple inheritance, unions built from several branches, container literals with mixed element types,
-TypeVars/Generic/NamedTuple, functions called from several sites with different argument types (one
-signature per call site, tracebacks), and deliberate type errors - several on one line, the same error
-reached through different call chains - so that the error log's order and deduplication are exercised."""
+Only `typing` (and the bundled `attr` stub) is imported - typeshed is absent.  Two kinds of surface are generated
+on purpose, because that is where order / history dependence hides:
+
+(a) ERROR MESSAGES THAT PRINT RICH TYPES.  Messages go through the pretty printer (join_printed_types, signature
+    printing), which is separate from the stub printer: wrong-arg-types against parameters annotated with
+    multi-valued Literal types (str and int, >= 4 values), unions of >= 3 members, Optional of containers, callable
+    signatures with defaults, attribute errors on unions ("No attribute 'x' on int / In Union[...]"), dict/set
+    displays with mixed element types, several errors on one line, one error reached through several call chains.
+(b) TYPING FEATURES WITH INTERNAL NAMES, COUNTERS OR CACHES: NewType with literal and with non-literal (computed)
+    names, NamedTuple and TypedDict in functional and class form, Generic classes over >= 2 TypeVars declared in
+    non-alphabetical order, Protocol, @overload, attr.s classes, nested classes, lambdas, closures,
+    property/staticmethod/classmethod, classes with >= 3 bases.
+
+Identifiers come from per-program pools drawn from a separate `names` RNG: two programs generated with the same
+names seed but different structure seeds share class/function/NewType names ("a target analysed after a program
+that shares names with it")."""
 
 ALPHA = "abcdefghijklmnopqrstuvwxyz"
+RESERVED = frozenset("""if in is or as def del for not and try int str set len any all max min sum id self cls list dict
+type from with else elif pass None True map zip abs bin hex oct ord chr dir pow vars iter next open hash bool float bytes
+tuple range print input super slice round object sorted filter format global lambda return import assert except raise
+while yield class break async await exec eval repr case match attr typing""".split())
+
+
+def _word(r, lo=2, hi=7):
+  return "".join(r.choice(ALPHA) for _ in range(r.randint(lo, hi)))
+
+
+class Names:
+  """Pools of identifiers, a function of the names RNG only."""
+
+  def __init__(self, rn):
+    seen = set()
+
+    def pool(n, prefix="", cap=False, suffix_num=0.3):
+      out = []
+      while len(out) < n:
+        w = prefix + _word(rn)
+        if rn.random() < suffix_num:
+          w += str(rn.randrange(100))
+        if cap:
+          w = w[0].upper() + w[1:]
+        if w in seen or w in RESERVED:
+          continue
+        seen.add(w)
+        out.append(w)
+      return out
+
+    self.classes = pool(14, "C", cap=True)
+    self.funcs = pool(16, "f")
+    self.attrs = pool(24)
+    self.consts = pool(20, suffix_num=0.4)
+    self.undefined = pool(12, "u")
+    self.tvars = pool(6, "T", cap=True, suffix_num=0.0)
+    self.newtypes = pool(8, "N", cap=True, suffix_num=0.0)
+    self.lit_strs = [_word(rn, 1, 5) for _ in range(40)]
 
 
 class ProgGen:
 
-  def __init__(self, r):
+  def __init__(self, r, rn):
     self.r = r
-    self.names = set()
+    self.n = Names(rn)
+    self.used = {k: 0 for k in ("classes", "funcs", "attrs", "consts", "undefined", "tvars", "newtypes")}
     self.lines = []
-    self.classes = []
-    self.funcs = []
+    self.classes = []       # plain classes usable as bases / instances
     self.consts = []
+    self.literal_aliases = []   # (alias, values as source text)
+    self.union_funcs = []   # functions returning rich unions
     self.features = set()
+    self.tvars = []
 
-  def fresh(self, prefix=""):
-    r = self.r
-    while True:
-      n = prefix + "".join(r.choice(ALPHA) for _ in range(r.randint(2, 7)))
-      if r.random() < 0.3:
-        n += str(r.randrange(100))
-      if n not in self.names and n not in ("if", "in", "is", "or", "as", "def", "del", "for", "not", "and", "try",
-                                           "int", "str", "set", "len", "any", "all", "max", "min", "sum", "id",
-                                           "self", "cls", "list", "dict", "type", "from", "with", "else", "elif",
-                                           "pass", "None", "True", "map", "zip", "abs", "bin", "hex", "oct", "ord",
-                                           "chr", "dir", "pow", "vars", "iter", "next", "open", "hash", "bool",
-                                           "float", "bytes", "tuple", "range", "print", "input", "super", "slice",
-                                           "round", "object", "sorted", "filter", "format", "global", "lambda",
-                                           "return", "import", "assert", "except", "raise", "while", "yield",
-                                           "class", "break", "async", "await", "exec", "eval", "repr", "case", "match"):
-        self.names.add(n)
-        return n
+  # ---- identifiers ---------------------------------------------------------------------------
+  def take(self, kind):
+    pool = getattr(self.n, kind)
+    i = self.used[kind]
+    self.used[kind] += 1
+    if i < len(pool):
+      return pool[i]
+    return pool[i % len(pool)] + "_%d" % (i // len(pool))
+
+  def cname(self): return self.take("classes")
+  def fname(self): return self.take("funcs")
+  def aname(self): return self.take("attrs")
+  def kname(self): return self.take("consts")
+  def uname(self): return self.take("undefined")
 
   def emit(self, *ls):
     self.lines.extend(ls)
 
+  def feat(self, *fs):
+    self.features.update(fs)
+
+  # ---- expressions ---------------------------------------------------------------------------
+  def scalar(self):
+    return self.r.choice(["1", "2", "'s'", "'t'", "None", "1.5", "True", "b'x'", "3j"])
+
+  def hashable(self):
+    return self.r.choice(["1", "'s'", "None", "2.5", "True", "b'x'", "(1, 's')", "frozenset([1])"])
+
   def value(self, depth=0):
     r = self.r
     k = r.random()
-    if depth > 2 or k < 0.35:
-      return r.choice(["1", "2", "'s'", "'t'", "None", "1.5", "True", "b'x'", "3j"])
-    if k < 0.5:
+    if depth > 2 or k < 0.3:
+      return self.scalar()
+    if k < 0.45:
       return "[" + ", ".join(self.value(depth + 1) for _ in range(r.randint(0, 4))) + "]"
-    if k < 0.65:
+    if k < 0.62:
       return "{" + ", ".join("%s: %s" % (r.choice(["1", "'k'", "None", "2.5"]), self.value(depth + 1))
                              for _ in range(r.randint(1, 4))) + "}"
-    if k < 0.8:
-      return "{" + ", ".join(self.hashable() for _ in range(r.randint(1, 5))) + "}"
+    if k < 0.78:
+      return "{" + ", ".join(self.hashable() for _ in range(r.randint(2, 5))) + "}"
     if k < 0.9:
       return "(" + ", ".join(self.value(depth + 1) for _ in range(r.randint(1, 3))) + ",)"
     if self.consts:
       return r.choice(self.consts)
     return "0"
 
-  def hashable(self):
-    return self.r.choice(["1", "'s'", "None", "2.5", "True", "b'x'", "(1, 's')", "frozenset([1])"])
-
-  # ---- ingredients --------------------------------------------------------------------------
-  def consts_block(self):
+  def rich_annotation(self):
+    """A type whose printed form has several members."""
     r = self.r
-    for _ in range(r.randint(2, 6)):
-      n = self.fresh(r.choice(["", "", "_", "K"]))
-      k = r.random()
-      if k < 0.5:
-        self.emit("%s = %s" % (n, self.value()))
-      elif k < 0.7:
-        self.emit("%s = {%s}" % (n, ", ".join(self.hashable() for _ in range(r.randint(2, 6)))))
-        self.features.add("set-literal")
-      elif k < 0.85:
-        a, b, c = (self.value(2) for _ in range(3))
-        self.emit("%s = %s if %s else %s if %s else %s" % (n, a, self.fresh("u"), b, self.fresh("u"), c))
-        self.features.add("undefined-names")
-      else:
-        self.emit("%s = dict(%s)" % (n, ", ".join("%s=%s" % (self.fresh(), self.value(2)) for _ in range(r.randint(1, 4)))))
-      self.consts.append(n)
+    k = r.random()
+    if k < 0.3 and self.literal_aliases:
+      return r.choice(self.literal_aliases)[0]
+    if k < 0.5:
+      return "Union[%s]" % ", ".join(r.sample(["int", "str", "bytes", "List[int]", "Dict[str, int]", "None", "float",
+                                               "Tuple[int, str]", "Set[str]"], r.randint(3, 5)))
+    if k < 0.65:
+      return "Optional[%s]" % r.choice(["List[int]", "Dict[str, List[int]]", "Set[Tuple[int, str]]", "Tuple[str, ...]"])
+    if k < 0.8:
+      return "Callable[[%s], %s]" % (", ".join(r.sample(["int", "str", "bool", "List[str]"], r.randint(1, 3))),
+                                     r.choice(["str", "Optional[int]", "Union[int, str]"]))
+    if k < 0.9:
+      return "Dict[%s, %s]" % (r.choice(["str", "int"]), r.choice(["Union[int, str, None]", "List[Optional[str]]", "Set[int]"]))
+    return r.choice(["int", "str", "List[int]"])
 
-  def typevar_block(self):
-    r = self.r
-    self.emit("from typing import Any, Callable, Dict, Generic, List, NamedTuple, Optional, Set, Tuple, TypeVar, Union")
-    self.tvars = []
-    for _ in range(r.randint(1, 3)):
-      n = self.fresh("T")
-      k = r.random()
-      if k < 0.5:
+  def wrong_value(self):
+    return self.r.choice(["1", "'zz'", "None", "[1, 's']", "{'a': 1, 2: 's'}", "{1, 's', None}", "1.5", "(1, 's')",
+                          "{'k': [1, None]}", "b'x'"])
+
+  # ---- blocks --------------------------------------------------------------------------------
+  def header(self):
+    self.emit("from typing import (Any, Callable, Dict, Generic, List, Literal, NamedTuple, NewType, Optional, Protocol, "
+              "Set, Tuple, TypedDict, TypeVar, Union, overload)")
+    self.use_attr = self.r.random() < 0.5
+    if self.use_attr:
+      self.emit("import attr")
+    # TypeVars declared in NON-alphabetical order
+    names = sorted((self.take("tvars") for _ in range(self.r.randint(2, 4))), reverse=True)
+    if len(names) > 2:
+      names[0], names[1] = names[1], names[0]
+    for n in names:
+      k = self.r.random()
+      if k < 0.55:
         self.emit("%s = TypeVar('%s')" % (n, n))
-      elif k < 0.75:
-        self.emit("%s = TypeVar('%s', int, str)" % (n, n))
+      elif k < 0.8:
+        self.emit("%s = TypeVar('%s', int, str, bytes)" % (n, n))
       else:
         self.emit("%s = TypeVar('%s', bound=int)" % (n, n))
       self.tvars.append(n)
-    self.features.add("typevars")
+    self.feat("typevars")
+
+  def consts_block(self):
+    r = self.r
+    for _ in range(r.randint(2, 5)):
+      n = self.kname()
+      k = r.random()
+      if k < 0.45:
+        self.emit("%s = %s" % (n, self.value()))
+      elif k < 0.7:
+        self.emit("%s = {%s}" % (n, ", ".join(self.hashable() for _ in range(r.randint(2, 6)))))
+        self.feat("mixed-set-display")
+      elif k < 0.85:
+        a, b, c = (self.value(2) for _ in range(3))
+        self.emit("%s = %s if %s else %s if %s else %s" % (n, a, self.uname(), b, self.uname(), c))
+        self.feat("undefined-names")
+      else:
+        self.emit("%s = dict(%s)" % (n, ", ".join("%s=%s" % (self.aname(), self.value(2)) for _ in range(r.randint(1, 4)))))
+      self.consts.append(n)
+
+  def literal_block(self):
+    """Multi-valued Literal aliases, functions/methods taking them (with defaults), wrong calls."""
+    r = self.r
+    strs = r.sample(self.n.lit_strs, r.randint(4, 7))
+    ints = r.sample([0, 1, 2, 3, 5, 10, 12, 20, 21, 100, 101, -1], r.randint(4, 6))
+    a1, a2 = self.cname(), self.cname()
+    self.emit("%s = Literal[%s]" % (a1, ", ".join('"%s"' % s for s in strs)))
+    self.emit("%s = Literal[%s]" % (a2, ", ".join(str(i) for i in ints)))
+    self.literal_aliases += [(a1, ['"%s"' % s for s in strs]), (a2, [str(i) for i in ints])]
+    cls, meth, fn = self.cname(), self.aname(), self.fname()
+    self.emit("class %s:" % cls,
+              "  def __init__(self, path: str, mode: %s = %s) -> None:" % (a1, '"%s"' % strs[0]),
+              "    self.path = path",
+              "    self.mode = mode",
+              "  def %s(self, path, mode: %s = %s, level: %s = %d, strict: Optional[bool] = None) -> '%s':"
+              % (meth, a1, '"%s"' % strs[1], a2, ints[0], cls),
+              "    return %s(path, mode)" % cls,
+              "def %s(level: %s, mode: Union[%s, None] = None, *, tag: %s = %s) -> int:" % (fn, a2, a1, a1, '"%s"' % strs[2]),
+              "  return level")
+    h = self.kname()
+    self.emit("%s = %s('p', \"%s\")" % (h, cls, strs[0] + strs[1] + "_"))                  # wrong literal value
+    self.emit("%s.%s('q', \"no_%s\")" % (h, meth, strs[0]))
+    self.emit("%s.%s('q', level=%d)" % (h, meth, 7777))
+    self.emit("%s(%d, tag=\"%s_\")" % (fn, 4242, strs[3]))
+    if r.random() < 0.7:
+      self.emit("%s: %s = \"%s__\"" % (self.kname(), a1, strs[0]))                         # annotation mismatch
+    if r.random() < 0.5:
+      self.emit("%s(%d).%s, %s(%d).%s" % (fn, ints[1], self.aname(), fn, ints[2], self.aname()))   # two errors, one line
+      self.feat("same-line-errors")
+    self.classes.append(cls)
+    self.feat("literal-str>=4", "literal-int>=4", "signature-with-defaults")
+
+  def newtype_block(self):
+    r = self.r
+    lit = self.take("newtypes")
+    self.emit("%s = NewType('%s', %s)" % (lit, lit, r.choice(["int", "str", "bytes"])))
+    self.emit("%s(%s)" % (lit, r.choice(["None", "[1]", "1.5"])))
+    self.feat("newtype-literal-name")
+    k = r.random()
+    if k < 0.75:
+      # NON-literal names: the class gets an internal, numbered name that is printed in the stub
+      helper, cls = self.fname(), self.cname()
+      a1, a2 = self.aname(), self.aname()
+      self.emit("def %s(kind: str) -> str:" % helper, "  return kind + 'Id'",
+                "class %s:" % cls,
+                "  %s = NewType(%s('%s'), int)" % (a1, helper, a1),
+                "  %s = NewType(%s('%s'), %s)" % (a2, helper, a2, r.choice(["int", "str"])),
+                "  def %s(self):" % self.aname(),
+                "    return %s.%s(1)" % (cls, a1),
+                "def %s(n: int):" % self.fname(),
+                "  return %s.%s(n)" % (cls, a2))
+      self.feat("newtype-computed-name")
+    if k > 0.5:
+      tagged, made = self.fname(), self.take("newtypes")
+      self.emit("def %s(tag):" % tagged, "  return NewType(tag + 'Tag', str)",
+                "%s = %s('%s')" % (made, tagged, made),
+                "def %s(c: %s) -> str:" % (self.fname(), made), "  return c.upper()")
+      self.feat("newtype-computed-name")
+
+  def namedtuple_block(self):
+    r = self.r
+    f1, f2 = self.cname(), self.cname()
+    fields = [(self.aname(), r.choice(["int", "str", "List[int]", "Optional[str]"])) for _ in range(r.randint(2, 4))]
+    self.emit("%s = NamedTuple('%s', [%s])" % (f1, f1, ", ".join("('%s', %s)" % ft for ft in fields)))
+    self.emit("class %s(NamedTuple):" % f2)
+    for f, t in fields:
+      self.emit("  %s: %s" % (f, t))
+    self.emit("  def %s(self):" % self.aname(), "    return self.%s" % fields[0][0])
+    self.emit("%s(%s)" % (f1, ", ".join(self.wrong_value() for _ in fields)))
+    self.emit("%s(%s).%s" % (f2, ", ".join(self.wrong_value() for _ in fields), self.aname()))
+    self.feat("namedtuple-functional", "namedtuple-class")
+
+  def typeddict_block(self):
+    r = self.r
+    t1, t2 = self.cname(), self.cname()
+    keys = [self.aname() for _ in range(r.randint(2, 3))]
+    self.emit("%s = TypedDict('%s', {%s})" % (t1, t1, ", ".join("'%s': %s" % (k, r.choice(["int", "str", "List[str]"])) for k in keys)))
+    self.emit("class %s(TypedDict, total=False):" % t2)
+    for k in keys:
+      self.emit("  %s: %s" % (k, r.choice(["int", "Optional[str]", "Dict[str, int]"])))
+    self.emit("%s: %s = {%s}" % (self.kname(), t1, ", ".join("'%s': %s" % (k, self.wrong_value()) for k in keys)))
+    self.emit("%s: %s = {'%s': %s, '%s': 1}" % (self.kname(), t2, keys[0], self.wrong_value(), self.aname()))
+    self.feat("typeddict-functional", "typeddict-class")
+
+  def generic_block(self):
+    r = self.r
+    cls = self.cname()
+    tv = r.sample(self.tvars, 2)
+    self.emit("class %s(Generic[%s, %s]):" % (cls, tv[0], tv[1]),
+              "  def __init__(self, a: %s, b: %s):" % (tv[0], tv[1]),
+              "    self.a = a", "    self.b = b",
+              "  def swap(self) -> 'Tuple[%s, %s]':" % (tv[1], tv[0]), "    return (self.b, self.a)",
+              "  def both(self) -> Union[%s, %s, None]:" % (tv[0], tv[1]), "    return self.a")
+    v = self.kname()
+    self.emit("%s = %s(%s, %s)" % (v, cls, r.choice(["1", "'s'"]), r.choice(["[1]", "None", "b'x'"])))
+    self.emit("%s.swap().%s" % (v, self.aname()))
+    self.emit("%s.both().%s" % (v, self.aname()))
+    f = self.fname()
+    self.emit("def %s(x: %s, y: List[%s]) -> Dict[%s, %s]:" % (f, tv[0], tv[0], tv[0], tv[0]), "  return {x: y[0]}",
+              "%s = %s(%s, [%s])" % (self.kname(), f, r.choice(["1", "'s'"]), r.choice(["1", "'s'", "None"])))
+    self.feat("generic-2-typevars", "attribute-error-on-union")
+
+  def protocol_overload_block(self):
+    r = self.r
+    pr, m, user = self.cname(), self.aname(), self.fname()
+    self.emit("class %s(Protocol):" % pr, "  def %s(self, x: int, y: str = ...) -> str: ..." % m,
+              "def %s(p: %s, q: Optional[%s] = None): return p.%s(1)" % (user, pr, pr, m),
+              "%s(%s)" % (user, self.wrong_value()))
+    ov = self.fname()
+    self.emit("@overload", "def %s(x: int) -> int: ..." % ov, "@overload", "def %s(x: str, y: bytes = ...) -> str: ..." % ov,
+              "@overload", "def %s(x: List[int], y: bytes = ...) -> None: ..." % ov,
+              "def %s(x, y=b''): return x" % ov,
+              "%s(%s)" % (ov, r.choice(["1.5", "None", "{1: 2}"])))
+    self.feat("protocol", "overload")
 
   def class_block(self):
     r = self.r
-    cname = self.fresh("C").capitalize()
+    cname = self.cname()
     bases = []
     k = r.random()
-    if self.classes and k < 0.45:
-      bases = r.sample(self.classes, min(len(self.classes), r.choice([1, 1, 2])))
-      self.features.add("inheritance" if len(bases) == 1 else "multiple-inheritance")
-    elif k < 0.6:
-      tv = r.choice(self.tvars)
-      bases = ["Generic[%s]" % tv]
-      self.features.add("generic-class")
-    elif k < 0.7:
-      fields = [(self.fresh(), r.choice(["int", "str", "List[int]", "Optional[str]"])) for _ in range(r.randint(1, 4))]
-      self.emit("class %s(NamedTuple):" % cname)
-      for f, t in fields:
-        self.emit("  %s: %s" % (f, t))
-      self.emit("")
-      self.classes.append(cname)
-      self.features.add("namedtuple")
-      return
+    if len(self.classes) >= 3 and k < 0.35:
+      bases = r.sample(self.classes, 3)
+      self.feat("three-bases")
+    elif self.classes and k < 0.6:
+      bases = r.sample(self.classes, min(len(self.classes), r.choice([1, 2])))
+      self.feat("inheritance")
+    deco = []
+    if self.use_attr and not bases and r.random() < 0.4:
+      deco = ["@attr.s"]
+      self.feat("attr.s-class")
+    self.emit(*deco)
     self.emit("class %s%s:" % (cname, "(" + ", ".join(bases) + ")" if bases else ""))
-    attrs = [self.fresh() for _ in range(r.randint(2, 6))]
-    if r.random() < 0.25 and not bases:
+    attrs = [self.aname() for _ in range(r.randint(2, 5))]
+    if deco:
+      for a in attrs[:3]:
+        self.emit("  %s = attr.ib(default=%s)" % (a, self.scalar()))
+    elif r.random() < 0.2 and not bases:
       self.emit("  __slots__ = (%s,)" % ", ".join("'%s'" % a for a in attrs))
-      self.features.add("slots")
-    for _ in range(r.randint(0, 3)):
-      self.emit("  %s = %s" % (self.fresh(), self.value(1)))
-    self.emit("  def __init__(self, %s):" % ", ".join("p%d" % i for i in range(r.randint(0, 3))))
-    for a in attrs[: max(1, len(attrs) // 2)]:
-      self.emit("    self.%s = %s" % (a, self.value(1)))
-    for _ in range(r.randint(1, 4)):
-      m = self.fresh()
-      deco = r.random()
-      if deco < 0.12:
-        self.emit("  @staticmethod", "  def %s(x, y=None):" % m)
-      elif deco < 0.24:
+      self.feat("slots")
+    for _ in range(r.randint(0, 2)):
+      self.emit("  %s = %s" % (self.aname(), self.value(1)))
+    if r.random() < 0.4:
+      inner = self.cname()
+      self.emit("  class %s:" % inner, "    %s = %s" % (self.aname(), self.value(2)),
+                "    def %s(self, z: %s = None):" % (self.aname(), self.rich_annotation()), "      return z")
+      self.feat("nested-class")
+    if not deco:
+      self.emit("  def __init__(self, %s):" % ", ".join("p%d=None" % i for i in range(r.randint(0, 3))))
+      for a in attrs[: max(1, len(attrs) // 2)]:
+        self.emit("    self.%s = %s" % (a, self.value(1)))
+    for _ in range(r.randint(1, 3)):
+      m = self.aname()
+      d = r.random()
+      if d < 0.15:
+        self.emit("  @staticmethod", "  def %s(x, y: %s = None):" % (m, self.rich_annotation()))
+        self.feat("staticmethod")
+      elif d < 0.3:
         self.emit("  @classmethod", "  def %s(cls, x=1):" % m)
-      elif deco < 0.36:
+        self.feat("classmethod")
+      elif d < 0.45:
         self.emit("  @property", "  def %s(self):" % m)
+        self.feat("property")
       else:
         self.emit("  def %s(self, x=None, *args, **kwargs):" % m)
       body = r.random()
-      if body < 0.4 and deco >= 0.36:
-        # attributes assigned outside __init__, with a different type
+      if body < 0.35 and d >= 0.45:
         for a in r.sample(attrs, min(len(attrs), 2)):
           self.emit("    self.%s = %s" % (a, self.value(1)))
         self.emit("    return self.%s" % r.choice(attrs))
+        self.feat("attr-typed-in-two-methods")
+      elif body < 0.7 and d >= 0.3 and d < 0.45:
+        self.emit("    return %s" % self.value(1))
       elif body < 0.7:
-        self.emit("    if x:", "      return %s" % self.value(1), "    elif %s:" % self.fresh("u"),
+        self.emit("    if x:", "      return %s" % self.value(1), "    elif %s:" % self.uname(),
                   "      return %s" % self.value(1), "    return %s" % self.value(1))
-        self.features.add("undefined-names")
+        self.feat("undefined-names", "branch-union")
       else:
         self.emit("    return x")
     self.emit("")
-    self.classes.append(cname)
+    if not deco:
+      self.classes.append(cname)
 
-  def func_block(self):
+  def union_func_block(self):
+    """Functions returning rich unions; attribute errors on them print 'No attribute .. on X / In Union[...]'."""
     r = self.r
-    f = self.fresh("f")
+    f = self.fname()
+    ann = "Union[%s]" % ", ".join(r.sample(["int", "str", "None", "List[int]", "Dict[str, int]", "bytes", "float",
+                                            "Tuple[int, str]"], r.randint(3, 5)))
+    self.emit("def %s(flag: bool = True, *, deep: %s = None) -> %s:" % (f, self.rich_annotation(), ann), "  return 1")
+    self.emit("%s().%s" % (f, r.choice(["bit_length", "upper", "append", self.aname()])))
+    if r.random() < 0.5:
+      self.emit("%s().%s, %s(False).%s" % (f, self.aname(), f, self.aname()))
+      self.feat("same-line-errors")
+    self.emit("%s(%s, deep=%s)" % (f, self.wrong_value(), self.wrong_value()))
+    self.union_funcs.append(f)
+    self.feat("attribute-error-on-union", "union>=3", "signature-with-defaults")
+
+  def traceback_block(self):
+    r = self.r
+    f, p = self.fname(), self.aname()
+    self.emit("def %s(%s, q=0):" % (f, p), "  return %s.%s + %s.%s" % (p, self.aname(), p, self.aname()))
+    callers = []
+    for _ in range(r.randint(1, 2)):
+      g = self.fname()
+      self.emit("def %s(a, b=None):" % g, "  return %s(a)" % f)
+      callers.append(g)
+    outer = self.fname()
+    self.emit("def %s(a):" % outer, "  return %s(a)" % callers[0])
+    for _ in range(r.randint(2, 4)):
+      arg = r.choice(["1", "'s'", "None", "[1]", "1.5", "{}", "{1, 's'}"])
+      self.emit("%s(%s)" % (r.choice(callers + [f, outer]), arg))
+    self.feat("tracebacks", "same-line-errors")
+
+  def closure_lambda_block(self):
+    r = self.r
+    lam, outer, inner = self.kname(), self.fname(), self.fname()
+    self.emit("%s = lambda q, w=%s: q.%s" % (lam, self.scalar(), self.aname()),
+              "%s(%s)" % (lam, r.choice(["1", "'s'", "None"])),
+              "def %s(a, b: %s = None):" % (outer, self.rich_annotation()),
+              "  def %s(c):" % inner, "    return a.%s + c" % self.aname(),
+              "  return %s" % inner,
+              "%s(%s)(%s)" % (outer, r.choice(["1", "'s'"]), self.scalar()),
+              "%s = [(lambda z: z.%s)(k) for k in (1, 's')]" % (self.kname(), self.aname()))
+    self.feat("lambda", "closure")
+
+  def annotated_call_block(self):
+    r = self.r
+    f = self.fname()
+    anns = [self.rich_annotation() for _ in range(r.randint(2, 3))]
+    params = ", ".join("p%d: %s%s" % (i, a, " = None" if i else "") for i, a in enumerate(anns))
+    self.emit("def %s(%s, *rest: int, key: %s = None, **extra: str) -> %s:" % (f, params, self.rich_annotation(), anns[0]),
+              "  return p0")
+    self.emit("%s(%s)" % (f, self.wrong_value()))
+    self.emit("%s(%s, %s, key=%s)" % (f, self.wrong_value(), self.wrong_value(), self.wrong_value()))
+    if r.random() < 0.5:
+      self.emit("%s()" % f)
+    self.emit("%s: %s = %s" % (self.kname(), self.rich_annotation(), self.wrong_value()))
+    self.feat("signature-with-defaults", "rich-annotations", "optional-of-container")
+
+  def misc_error_block(self):
+    r = self.r
     k = r.random()
-    if k < 0.3:
-      # error inside a function that is called from several sites: tracebacks
-      p = self.fresh()
-      self.emit("def %s(%s, q=0):" % (f, p), "  return %s.%s + %s.%s" % (p, self.fresh(), p, self.fresh()))
-      callers = []
-      for _ in range(r.randint(0, 2)):
-        g = self.fresh("g")
-        self.emit("def %s(a):" % g, "  return %s(a)" % f)
-        callers.append(g)
-      for _ in range(r.randint(2, 5)):
-        arg = r.choice(["1", "'s'", "None", "[1]", "1.5", "{}"])
-        self.emit("%s(%s)" % (r.choice(callers + [f]), arg))
-      self.features.add("tracebacks")
+    if k < 0.3 and self.classes:
+      v = self.kname()
+      self.emit("%s = %s()" % (v, r.choice(self.classes)))
+      self.emit("%s = (%s)" % (self.kname(), ", ".join("%s.%s" % (v, self.aname()) for _ in range(r.randint(2, 4)))))
+      self.feat("same-line-errors")
     elif k < 0.5:
-      tv = r.choice(self.tvars)
-      self.emit("def %s(x: %s, y: List[%s]) -> Dict[%s, %s]:" % (f, tv, tv, tv, tv), "  return {x: y[0]}")
-      self.emit("%s = %s(%s, [%s])" % (self.fresh(), f, r.choice(["1", "'s'"]), r.choice(["1", "'s'", "None"])))
-      self.features.add("generic-function")
-    elif k < 0.7:
-      n = r.randint(2, 4)
-      self.emit("def %s(x, y=None):" % f)
-      for i in range(n):
-        self.emit("  %s x == %d:" % ("if" if i == 0 else "elif", i), "    return %s" % self.value(1))
-      self.emit("  return y")
-      for _ in range(r.randint(1, 3)):
-        self.emit("%s = %s(%s, %s)" % (self.fresh(), f, self.value(2), self.value(2)))
-      self.features.add("branch-union")
-    elif k < 0.85:
-      ann = r.choice(["int", "str", "List[int]", "Optional[int]", "Union[int, str]", "Callable[[int], str]", "Set[str]",
-                      "Tuple[int, ...]", "Dict[str, Any]"])
-      self.emit("def %s(x: %s, *, k: int = 0) -> %s:" % (f, ann, ann), "  return x")
-      # wrong argument types / counts
-      self.emit("%s(%s)" % (f, r.choice(["1", "'s'", "None", "[1]", "{'a'}", "1.5"])))
-      if r.random() < 0.5:
-        self.emit("%s(1, 2, 3)" % f)
-      if r.random() < 0.5:
-        self.emit("%s(%s, k='no')" % (f, r.choice(["1", "'s'"])))
-      self.features.add("annotated-calls")
-    else:
-      self.emit("def %s(*args, **kwargs):" % f, "  return (args, kwargs)")
-      self.emit("%s = %s(1, 's', %s=%s)" % (self.fresh(), f, self.fresh(), self.value(1)))
-    self.funcs.append(f)
-
-  def error_block(self):
-    r = self.r
-    k = r.random()
-    if k < 0.25 and self.classes:
-      c = r.choice(self.classes)
-      v = self.fresh()
-      self.emit("%s = %s()" % (v, c))
-      # several missing attributes on ONE line
-      self.emit("%s = (%s)" % (self.fresh(), ", ".join("%s.%s" % (v, self.fresh()) for _ in range(r.randint(2, 4)))))
-      self.features.add("same-line-errors")
-    elif k < 0.45:
-      self.emit("%s = %s + %s" % (self.fresh(), r.choice(["1", "'s'", "None", "[1]"]), r.choice(["'s'", "None", "{}", "1"])))
-    elif k < 0.6:
-      self.emit("%s = [%s, %s, %s]" % (self.fresh(), self.fresh("u"), self.fresh("u"), self.fresh("u")))
-      self.features.add("same-line-errors")
-    elif k < 0.75:
-      self.emit("%s = len(%s)" % (self.fresh(), r.choice(["1", "None", "1.5"])))
-    elif k < 0.9 and self.consts:
+      self.emit("%s = %s + %s" % (self.kname(), r.choice(["1", "'s'", "None", "[1]"]), r.choice(["'s'", "None", "{}", "1"])))
+    elif k < 0.65:
+      self.emit("%s = [%s, %s, %s]" % (self.kname(), self.uname(), self.uname(), self.uname()))
+      self.feat("same-line-errors", "undefined-names")
+    elif k < 0.8 and self.consts:
       a, b = r.choice(self.consts), r.choice(self.consts)
-      self.emit("%s = %s.%s(%s.%s)" % (self.fresh(), a, self.fresh(), b, self.fresh()))
-      self.features.add("same-line-errors")
+      self.emit("%s = %s.%s(%s.%s)" % (self.kname(), a, self.aname(), b, self.aname()))
+      self.feat("same-line-errors", "mixed-dict-display")
     else:
-      self.emit("for %s in %s:" % (self.fresh(), r.choice(["1", "None"])), "  pass")
+      v = self.kname()
+      self.emit("%s = %s" % (v, r.choice(["None", "0", "[]"])),
+                "for %s in [%s]:" % (self.aname(), ", ".join(self.value(2) for _ in range(r.randint(2, 4)))),
+                "  %s = %s" % (v, self.value(1)),
+                "  if %s:" % self.uname(), "    %s = %s" % (v, self.value(1)),
+                "%s.%s" % (v, self.aname()))
+      self.feat("loop-merge", "attribute-error-on-union")
 
-  def loop_block(self):
-    r = self.r
-    v = self.fresh()
-    self.emit("%s = %s" % (v, r.choice(["None", "0", "[]"])))
-    self.emit("for %s in [%s]:" % (self.fresh(), ", ".join(self.value(2) for _ in range(r.randint(2, 4)))))
-    self.emit("  %s = %s" % (v, self.value(1)))
-    self.emit("  if %s:" % self.fresh("u"), "    %s = %s" % (v, self.value(1)))
-    self.features.add("loop-merge")
-
+  # ---- assembly ------------------------------------------------------------------------------
   def build(self, size):
     r = self.r
-    self.typevar_block()
+    self.header()
     self.consts_block()
-    blocks = []
-    for _ in range(r.randint(1, 1 + size)):
-      blocks.append(self.class_block)
-    for _ in range(r.randint(2, 2 + size)):
-      blocks.append(self.func_block)
-    for _ in range(r.randint(2, 2 + size)):
-      blocks.append(self.error_block)
-    for _ in range(r.randint(0, 1)):
-      blocks.append(self.loop_block)
+    # every program gets the two kinds of surface; the rest is sampled
+    must = [self.literal_block, self.union_func_block, self.class_block]
+    if r.random() < 0.8:
+      must.append(self.newtype_block)
+    optional = [self.namedtuple_block, self.typeddict_block, self.generic_block, self.protocol_overload_block,
+                self.traceback_block, self.closure_lambda_block, self.annotated_call_block, self.class_block,
+                self.class_block, self.misc_error_block, self.misc_error_block]
+    blocks = must + r.sample(optional, min(len(optional), 3 + size))
     r.shuffle(blocks)
     for b in blocks:
       b()
-    if r.random() < 0.3:
-      self.consts_block()
     return "\n".join(self.lines) + "\n"
 
 
-def gen_program(r, size=2):
-  g = ProgGen(r)
-  src = g.build(size)
-  try:
-    compile(src, "prog.py", "exec")
-  except SyntaxError:
-    return gen_program(r, size)
-  return src, sorted(g.features)
+def gen_program(r, size=2, names_seed=None):
+  """r: structure RNG; names_seed: seed of the identifier pools (default: drawn from r).
+  Two programs with the same names_seed share class/function/NewType names.  Returns (source, feature list)."""
+  import random  # pylint: disable=import-outside-toplevel
+  if names_seed is None:
+    names_seed = r.getrandbits(48)
+  for _ in range(20):
+    g = ProgGen(r, random.Random("c04-names:%s" % names_seed))
+    src = g.build(size)
+    try:
+      compile(src, "prog.py", "exec")
+    except SyntaxError:
+      continue
+    return src, sorted(g.features)
+  raise RuntimeError("c04_progs: could not generate a compilable program")
 
 
 def gen_unrelated(r):
-  """A small unrelated module used as history ('k unrelated analyses in the same process')."""
-  g = ProgGen(r)
-  g.typevar_block()
-  g.consts_block()
-  g.class_block()
-  g.func_block()
-  g.error_block()
-  return "\n".join(g.lines) + "\n"
+  """History programs come from the same rich generator (NewTypes, NamedTuples, TypeVars, errors, ...)."""
+  return gen_program(r, 1)[0]
